@@ -82,6 +82,9 @@ func (g *gen) single(mode string, name string, seed int64, snap bool, resub bool
 	if snap {
 		p.SnapCount = 2 + g.r.Intn(3)
 	}
+	if (resub || mode == "solo") && g.r.Intn(3) == 0 {
+		p.Accounts = 2 // nonce sequences of two accounts instead of one account per transaction
+	}
 	st := []Step{{Op: "waitLeader"}}
 	height := 0 // executed height the script aims at (blocks of one transaction unless batch size 2)
 	all := []int{}
